@@ -648,7 +648,10 @@ class Server(BaseComponent):
         except OSError as e:
             if e.args[0] not in (EINTR, EWOULDBLOCK, ENOBUFS):
                 self.fire(error(sock, e))
-                self._close(sock)
+                # the peer takes no more output, but what it sent before it
+                # went away has still to be delivered: give up the write side
+                # only and let the read side end the connection (EOF / error)
+                self._buffers[sock].clear()
             else:
                 self._buffers[sock].appendleft(data)
 
